@@ -182,6 +182,14 @@ fn ref_poslog(prog: &[Stmt]) -> Vec<(String, Pos)> {
     fn ex(e: &Expr, log: &mut Vec<(String, Pos)>) {
         log.push((format!("expr:{}", kind(e)), e.ppos));
         match &*e.k {
+            EK::Interp(pieces) => {
+                // the source position of each slot's first character (two after its `$`)
+                for p in pieces {
+                    if let crate::refm::lex::Piece::Slot { pos, .. } = p {
+                        log.push(("slot".to_string(), (pos.0, pos.1 + 2)));
+                    }
+                }
+            }
             EK::Bin { op, op_pos, l, r } => {
                 log.push((format!("op:{}", op.sym()), *op_pos));
                 ex(l, log);
@@ -412,6 +420,36 @@ impl Check for C18 {
             }
         }
         ctx.judge(std::mem::take(&mut batch), |c, r, o| self.oracle(c, r, o))?;
+        // (B') offenders inside interpolation slots: the diagnostic carries the source position of
+        // the slot's first character and the position of the offender relative to it; together they
+        // are the true position of the token -- whatever precedes the slot inside the literal
+        // (escapes, multi-byte text, line breaks, other slots) and whatever pads the slot
+        {
+            let befores = ["", "ab", "é€", "\\n", "\\x41\\$", "\\\"", "\n", "a\nbé", "${x}", "${x} é\\n${x}", "\\\\${x}\n"];
+            let pads = ["", "  ", "\n", " \n\t "];
+            let offs = ["\u{1}y_", "x \u{1}+ 1", "\u{1}nf_()", "x + \u{1}y_", "x +\n \u{1}y_"];
+            let afters = ["", "${x}", "é"];
+            for stmt_pre in ["", "    ", "\n\n\t"] {
+                for b in befores {
+                    for pad in pads {
+                        for off in offs {
+                            for a in afters {
+                                let text = format!("x := \"X\"\nfn nf_(p) {{\nreturn p\n}}\n{}q_ := $\"{}${{{}{}}}{}\"\n", stmt_pre, b, pad, off, a);
+                                let (clean, marks) = extract_markers(&text);
+                                let tok = off_to_pos(&clean, marks[0]);
+                                // the slot's first character: after the last `${` before the marker
+                                let open = clean[..marks[0]].rfind("${").unwrap() + 2;
+                                let slot = off_to_pos(&clean, open);
+                                let rel = if tok.0 == slot.0 { (1, tok.1 - slot.1 + 1) } else { (tok.0 - slot.0 + 1, tok.1) };
+                                batch.push(Case::new(clean, 6, format!("{} {} {} {}\u{1}offender {:?} after {:?} with padding {:?}", slot.0, slot.1, rel.0, rel.1, off, b, pad)));
+                                n_a += 1;
+                            }
+                        }
+                    }
+                }
+            }
+            ctx.judge(std::mem::take(&mut batch), |c, r, o| self.oracle(c, r, o))?;
+        }
         // (C) offenders that are a newline or the end of the file: the position convention is
         // open, but it must be a function of where the newline is: text inserted before it on
         // the same line does not change the report, lines inserted above shift it by lines
@@ -492,6 +530,22 @@ impl Check for C18 {
 
     fn oracle(&self, c: &Case, _r: &RefOutcome, o: &Outcome) -> Verdict {
         match c.tag {
+            6 => {
+                let (nums, what) = c.meta.split_once('\u{1}').unwrap_or((c.meta.as_str(), ""));
+                let n: Vec<u32> = nums.split(' ').filter_map(|x| x.parse().ok()).collect();
+                if o.class != Class::Err {
+                    return viol("offender-not-reported", format!("{}: expected a diagnostic, the run ended {:?} printing {:?}", what, o.class, o.out_str()));
+                }
+                let first = o.msg.lines().next().unwrap_or("");
+                let got = parse_pos(first).and_then(|(outer, rest)| parse_pos(rest).map(|(inner, _)| (outer, inner)));
+                match got {
+                    Some((outer, inner)) if outer == (n[0], n[1]) && inner == (n[2], n[3]) => Verdict::Pass,
+                    _ => viol(
+                        "slot-position",
+                        format!("{}: the slot starts at {}:{} and the offender is at {}:{} within it; reported {:?}", what, n[0], n[1], n[2], n[3], first),
+                    ),
+                }
+            }
             1 | 2 => {
                 let (what, poss) = c.meta.split_once('\u{1}').unwrap_or((c.meta.as_str(), ""));
                 let want: Vec<Pos> = poss
